@@ -28,10 +28,21 @@ pub fn registry() -> &'static [Builder] {
 }
 
 pub fn assumptions() -> Vec<String> {
-    vec![
-        "documented range = setter doc comment + struct-level parameter table + text of the crate's parameter-error variants (DESIGN Appendix A, re-read on the pinned tree)".into(),
-        "all generated values are finite, no NaN / inf / -0.0".into(),
+    [
+        "documented range = setter doc comment + struct-level parameter table + crate-level docs + text of the crate's parameter-error variants (DESIGN Appendix A, every row re-read on the pinned tree)",
+        "all generated values are finite, no NaN / inf / -0.0; every builder is instantiated with f64 (CountVectorizer: its native f32, grid values exactly representable)",
+        "'just below / just inside' a bound = the adjacent representable number (0 -> +-f64::MIN_POSITIVE, f32::MIN_POSITIVE for f32 parameters)",
+        "verdict NOT asserted (consistency obligations only) where the documentation disagrees with itself or is silent at the bound: value 0 of elastic-net tolerance (table '(0, inf)' vs error list 'negative'), elastic-net max_iterations = 0 (table '[1, inf)' vs documented error list without such an error), logistic alpha = 0 and FTRL alpha = 0 and FastICA tol = 0 and Platt minstep/sigma = 0 ('positive' while 0 is accepted), GMM reg_covar = 0 (setter 'non-negative' vs error text 'must be positive'), SVM nu = 0 (setter '[0, 1]' vs crate docs '(0, 1]'), SVM solver eps = 0 and hierarchical max_distance = 0 (no wording for the bound), t-SNE approx_threshold = 0 ('range (0, inf) where a value of 0 disables approximation'), SVR loss epsilon <= 0 (no documented range), decision-tree min_impurity_decrease in (0, machine eps)",
+        "FTRL beta = 0 is treated as in range (documented default) although the wording is 'positive'",
+        "parameters without a documented range stay at their defaults and are not part of any verdict: iteration caps of logistic regression / Tweedie / FastICA / t-SNE, min_weight_split, min_weight_leaf, max_depth, SVR-nu regulariser c, k-means init method, kernels",
+        "entry points on a rejected builder: Err text must equal Display of E::from(check_ref error) (the entry point's own From conversion); a panic or Ok is a failure; probes (counting Rng, counting Distance, counting model for Platt) must stay untouched where the builder takes one",
+        "entry points on an accepted builder are compared with the checked form (Debug text or PartialEq of the fitted model, partition for hierarchical clustering whose ids follow HashMap order, sorted vocabulary for CountVectorizer, output shape only for t-SNE) only when every value lies in the per-parameter interval the tiny training run is exercised with (e.g. not with Platt minstep = 0 or SVM eps = 0, where training does not terminate in reasonable time); otherwise only check/check_ref are exercised",
+        "a training failure that depends on the data (power method not converged, Platt not converged, JL dimension larger than the feature count) is an accepted outcome when the unchecked builder and the checked form fail with the same text",
+        "linfa_clustering::AppxDbscan is an alias of Dbscan in the pinned tree (its own hyperparams module is not compiled), so it has no separate row",
     ]
+    .iter()
+    .map(|s| s.to_string())
+    .collect()
 }
 
 fn eq<T: PartialEq>(a: &T, b: &T) -> bool {
